@@ -252,10 +252,17 @@ def run() -> int:
             rep.add_violation(Violation(PROP, [key], what, dict(base, new_seen=r.get("new"), **v)))
     if not rep.samples:
         rep.add_sample({"note": "no merge happened in this run"})
+    from .. import history_runs
+
+    history_runs.run(rep, PROP)
     return rep.finish()
 
 
 def replay(payload: dict) -> int:
+    if payload.get("kind") == "history":
+        from .. import history_runs
+
+        return history_runs.replay(PROP, payload)
     g = GSpec.from_json(payload["graph"])
     ev = ev_from_json(payload["event"])
     print("graph", g.key(), "event", ev_str(ev))
